@@ -64,6 +64,9 @@ def _act_spec(rng):
     if restart and rng.random() < 0.7:
         cfg.pop("scaler", None)
     out = {"problem": spec, "cfg": cfg, "restart_at": restart}
+    if restart and rng.random() < 0.4:
+        # the restart asks for fewer corrections than the checkpoint holds
+        out["restart_maxcor"] = int(rng.integers(1, max(2, cfg["maxcor"])))
     if rng.random() < 0.25:
         # an update function that rewrites the gradient history (exercises the filter and its log lines)
         cfg.pop("scaler", None)
@@ -114,6 +117,8 @@ def _prepare(spec):
         if P.result is not None:
             blob = Store.dumps(P.result)
             cfg["maxiter"] = int(P.result.nit) + int(cfg["maxiter"])
+            if spec.get("restart_maxcor"):
+                cfg["maxcor"] = int(spec["restart_maxcor"])
     return problem, cfg, blob, spec.get("switch")
 
 
